@@ -306,6 +306,13 @@ def _polyfile_case(args):
              points=[[-3.5, -1e-3], [123456789.123456, -2.0],
                      [5.0, 7.25e8], [-1e-12, 3.0]],
              name="offsets; negative [x] #1", inverted=False, unique_id=40),
+        # SI-sized numbers: every significant digit sits far behind the
+        # decimal point
+        dict(axes=("volume", "area_um"),
+             points=[[1.2345678901234e-13, 2.0e-13],
+                     [9.8765432109876e-13, 1.0e-13],
+                     [5.0e-13, 8.7654321098765e-13]],
+             name="tiny", inverted=False, unique_id=41),
     ]
     rs = np.random.RandomState(5)
     for r in range(1, len(pool) + 1):
